@@ -312,6 +312,14 @@ def install_spec_builtins(ip):
         return ip.fresh("nondet", a[0] if a else "int")
     B["nondet"] = Builtin("nondet", _nondet)
 
+    def _clone_class(ip, a, k):
+        from .source import ClassInfo as _CI
+        src = a[0]
+        c = _CI(src.node, src.module, src.qual)
+        c.is_clone_of = src
+        return c
+    B["clone_class"] = Builtin("clone_class", _clone_class)
+
     B["resolve_class"] = Builtin("resolve_class", lambda ip, a, k: ip.resolve_class(a[0]))
     B["resolve_module"] = Builtin("resolve_module", lambda ip, a, k: ip.src.load_path(a[0]))
 
